@@ -72,3 +72,70 @@ int main(int argc, char **argv) {
     if not os.path.exists(exe):
         core.build_native(eng.wd, "apidrv", [drv] + core.repo_sources(), sanitize=True)
     return exe
+
+
+RELCMP_SRC = r"""
+#include <assemblyline.h>
+#include <stdio.h>
+#include <stdlib.h>
+#include <string.h>
+static int unhex(const char *h, char *out) { int n = 0; for (; h[0] && h[1]; h += 2) { unsigned v; sscanf(h, "%2x", &v); out[n++] = (char)v; } out[n] = 0; return n; }
+static int run(const char *text, unsigned char *out, int *len) {
+  static unsigned char buf[4096];
+  assemblyline_t al = asm_create_instance(buf, sizeof buf);
+  int rc = asm_assemble_str(al, text);
+  *len = rc == 0 ? asm_get_offset(al) : 0;
+  memcpy(out, buf, *len);
+  asm_destroy_instance(al);
+  return rc;
+}
+int main(void) {
+  static char l[20000], a[8192], b[8192]; static unsigned char oa[4096], ob[4096];
+  int n = 0;
+  while (fgets(l, sizeof l, stdin)) {
+    char *sp = strchr(l, ' '); if (!sp) continue; *sp = 0;
+    char *e = strchr(sp + 1, '\n'); if (e) *e = 0;
+    unhex(l, a); unhex(sp + 1, b);
+    int la, lb, ra = run(a, oa, &la), rb = run(b, ob, &lb);
+    if (ra != rb || la != lb || memcmp(oa, ob, la)) { printf("DIFF %d rc %d %d len %d %d\n", n, ra, rb, la, lb); }
+    n++;
+  }
+  printf("DONE %d\n", n);
+  return 0;
+}
+"""
+
+
+def rel_confirm(eng, mode, corpus):
+    """A relational (spelling) counterexample of the filter-level lemma counts
+    only if the rewriting changes an observable result: the rewriting class of
+    `mode` is applied to every line of `corpus` (valid lines, lower case, single
+    blanks) and both spellings are assembled natively.  Returns (reproduced, detail)."""
+    with _API_LOCK:
+        drv = os.path.join(eng.wd, "relcmp.c")
+        exe = os.path.join(eng.wd, "relcmp")
+        if not os.path.exists(exe):
+            with open(drv, "w") as f:
+                f.write(RELCMP_SRC)
+            core.build_native(eng.wd, "relcmp", [drv] + core.repo_sources())
+    pairs = []
+    for line in corpus:
+        if mode == "case":
+            for ch in sorted(set(c for c in line if c.isalpha())):
+                pairs.append((line, line.replace(ch, ch.upper())))
+            pairs.append((line, line.upper()))
+        elif mode == "blank":
+            pairs.append((line, "  " + line))
+            pairs.append((line, line.replace(",", " , ").replace("[", "[ ").replace("]", " ]").replace("+", " + ").replace("*", " * ")))
+            pairs.append((line, line.replace(" ", "  ") + "  "))
+        else:
+            pairs.append((line, line + " ; a comment: with, punctuation [x]"))
+            pairs.append((line + "\n", line + "\r\n"))
+            pairs.append((line, line + ";"))
+    inp = "".join("%s %s\n" % ((a + ("" if a.endswith("\n") else "\n")).encode().hex(), (b + ("" if b.endswith("\n") else "\n")).encode().hex()) for a, b in pairs)
+    rc, out, err, _, to = core.run([exe], timeout=120, stdin=inp.encode(), limit=False)
+    diffs = [l for l in out.splitlines() if l.startswith("DIFF")]
+    if diffs:
+        i = int(diffs[0].split()[1])
+        return True, "spellings differ observably: %r vs %r (%s); %d of %d pairs differ" % (pairs[i][0], pairs[i][1], diffs[0], len(diffs), len(pairs))
+    return False, "no observable difference on %d corpus pairs (%s)" % (len(pairs), (out or err)[-200:])
